@@ -10,7 +10,7 @@ SeqsOf(A, n) == IF n = 0 THEN {<<>>} ELSE LET s == SeqsOf(A, n - 1) IN s \cup {A
 Msgs == {<<>>, <<1>>, <<2>>, <<1, 3>>, <<1, 4, 3>>, <<5>>, <<1, 6, 3>>, <<2, 3, 7, 3>>, <<1, 6>>}     \* none | plain | contains ": " | two lines | blank line inside | non-ASCII | caret-pointer lines (a parser quoting its input)
 Init == \/ /\ kind = "text" /\ tb \in [frames : SeqsOf(FrameSet, 1) \cup SeqsOf(FrameSmall, MaxFrames), etype : {1, 2}, msg : Msgs]
            /\ prog = <<>> /\ exc = 0
-        \/ /\ kind = "chain" /\ prog \in SeqsOf(1..8, MaxDepth) \ {<<>>} /\ exc \in 1..8
+        \/ /\ kind = "chain" /\ prog \in SeqsOf(1..8, MaxDepth) \ {<<>>} /\ exc \in 1..12
            /\ tb = [frames |-> <<>>, etype |-> 1, msg |-> <<>>]
 Next == UNCHANGED vars
 Spec == Init /\ [][Next]_vars
